@@ -89,7 +89,7 @@ func variadicElems(arg ssa.Value) []ssa.Value {
 			}
 			for _, r2 := range *ia.Referrers() {
 				if st, ok := r2.(*ssa.Store); ok {
-					vals[idx.Int64()] = st.Val
+					vals[constInt64(idx)] = st.Val
 				}
 			}
 		}
@@ -618,9 +618,9 @@ func constTrips(b *ssa.BasicBlock) int {
 		for _, e := range phi.Edges {
 			if c, ok := e.(*ssa.Const); ok && c.Value != nil {
 				zero = true
-				start = c.Int64()
+				start = constInt64(c)
 			} else if bo, ok := e.(*ssa.BinOp); ok && bo.Op == token.ADD && bo.X == ssa.Value(phi) {
-				if c, ok := bo.Y.(*ssa.Const); ok && c.Int64() == 1 {
+				if c, ok := bo.Y.(*ssa.Const); ok && constInt64(c) == 1 {
 					inc = true
 				}
 			}
@@ -633,9 +633,9 @@ func constTrips(b *ssa.BasicBlock) int {
 			continue
 		}
 		// "for range K" style: phi starts at -1 and the incremented value is compared
-		n := k.Int64() - start + inclusive
+		n := constInt64(k) - start + inclusive
 		if _, isInc := cm.x.(*ssa.BinOp); isInc {
-			n = k.Int64() - (start + 1) + inclusive
+			n = constInt64(k) - (start + 1) + inclusive
 		}
 		if n > 0 && n < 64 {
 			return int(n)
